@@ -24,7 +24,7 @@ from typing import Any, ClassVar, Protocol
 
 import pyarrow as pa
 
-from harness.common import rpcutil
+from harness.common import c14sched, rpcutil
 from harness.common.lean import s2j
 
 PROPERTY = "C14"
@@ -36,6 +36,8 @@ OBLIGATIONS = [
     "VgiVerif.C14.identKey_not_injective",
     "VgiVerif.C14.aad_refines_key",
     "VgiVerif.C14.lru_bound",
+    "VgiVerif.C14.cache_calls_atomic",
+    "VgiVerif.C14.cache_calls_sound",
     "VgiVerif.C14.cache_expiry_aligned",
     "VgiVerif.C14.C14_transparent",
     "VgiVerif.C14.C14_transparent_partial",
@@ -49,8 +51,10 @@ TRUSTED = [
     "call ids (os.urandom(16)) are unique: a call id is the index of its /init",
     "a call state deserialised from its token equals the object /init cached (C11/C02 round trip); call-state class names "
     "are unique within a service",
-    "requests of one worker are atomic in the model (get and put are separate lock sections in the code; every single "
-    "get/put preserves the invariant, interleavings inside one request are not explored)",
+    "in the history model a request is atomic; concurrency inside a worker is covered at the level of the cache's calls: "
+    "extraction pins that every access to _entries is under the cache's lock, cache_calls_atomic / cache_calls_sound hold "
+    "for every sequence of get/put calls (= every interleaving of atomic calls), and the real get/put are run from two "
+    "threads under harness/common/detsched.py with line-level preemption",
     "the clock is read once per request (the harness pins time.time() during a request)",
     "Falcon, pyarrow IPC and the stream dispatch after state recovery are exercised, not modelled",
 ]
@@ -64,10 +68,16 @@ RULE = (
     "subclass of the declared class, an unrelated class with the same name and fields, the declared classes of a union state) and 8 identities; continuation "
     "requests are mostly conforming, with streams of wrong identity / wrong method / missing, junk or mispaired call "
     "token / junk cursor / cancel; clock steps biased to the TTL boundary. A history is non-trivial when at least one "
-    "continuation hit a warm cache; distinct by the symbolic history"
+    "continuation hit a warm cache; distinct by the symbolic history. Schedules: hand-written + generated two-thread "
+    "programs of get/put on the real _CallStateCache (capacity 0..3, keys sharing call ids across identities, times around "
+    "the expiry), and a continuation racing /init or another stream's continuation on one real worker at capacity; "
+    "iterative context bounding (<= 2 preemptions) over every line of get/put, then seeded PCT/random-walk schedules; "
+    "non-trivial when the schedule has a preemption; distinct by (programs, schedule)"
 )
 PARTIAL = [
-    "thread interleavings inside one worker (two requests between get and put)",
+    "schedules: two threads, <= 3 cache calls each (cache level) / two racing requests (through the app), preemption "
+    "bound 2 + seeded random schedules; preemption points inside a worker other than the lines of _CallStateCache.get/put "
+    "and the lock operations are not explored",
     "sub-request clock movement (time.time() read twice in one request)",
 ]
 MANIFEST = {
@@ -970,6 +980,85 @@ def corpus() -> list[tuple[str, int, list[int], list[dict[str, Any]]]]:
     return out
 
 
+# ------------------------------------------------------------------------------------------ two requests racing on one worker
+
+RACES = [
+    # (capacity, what the other thread does): the continuation of a cached stream races a request that evicts its entry
+    {"cap": 1, "other": "init", "m": 0},
+    {"cap": 1, "other": "init", "m": 2},
+    {"cap": 2, "other": "init-twice", "m": 0},
+    {"cap": 1, "other": "cont-other-stream", "m": 0},
+]
+
+
+def _race_setup(pool: Pool, clock: Clock, sc: dict[str, Any], box: dict[str, Any]) -> Any:
+    from vgi_rpc.http.server import _state_token as ST
+
+    def setup(ds: Any) -> Any:
+        dep = Deployment(pool, clock, 10, [sc["cap"]])
+        client, inst = dep.workers[0]
+        inst._call_state_cache = ST._CallStateCache(max_entries=sc["cap"], ttl=10.0)  # its lock is the scheduler's
+        m = sc["m"]
+        dep.do(_i(0, 2, m))  # stream 0, cached on the worker
+        if sc["other"] == "cont-other-stream":
+            # a second stream whose entry was evicted by nothing yet: make room for the race by initialising it on the
+            # reference (same key), so that its continuation on the worker takes the miss path and `put`s
+            d = dep._init_on(dep.ref[0], 1, 50, 2)
+            other_body = dep._body(False, d["cur"], d["call"], False, 7)
+        clock.ticks += 2 * TPS
+        body = dep._body(PRODUCER[m], dep.cursors[0], dep.calls[0]["token"], False, 3)
+        path = f"/{METHODS[m]}/exchange"
+        dep.ref[1]._call_state_cache.clear()
+        box.clear()
+        box["cold"] = decode(dep._post(dep.ref[0], path, body, 2))
+
+        def cont() -> None:
+            box["warm"] = decode(dep._post(client, path, body, 2))
+
+        def other() -> None:
+            if sc["other"] == "cont-other-stream":
+                box["other"] = decode(dep._post(client, "/exb/exchange", other_body, 2))
+            else:
+                for k in range(2 if sc["other"] == "init-twice" else 1):
+                    box[f"other{k}"] = dep._init_on(client, 1, 60 + k, 2)
+
+        ds.spawn(cont, name="continuation")
+        ds.spawn(other, name="other")
+        return inst
+
+    return setup
+
+
+def race_through_app(ctx: Any, pool: Pool, clock: Clock, dfs: int, only: dict[str, Any] | None = None) -> None:
+    """A continuation of a cached stream races another request of the same worker (cache at capacity), through the real
+    WSGI app, with every line of `_CallStateCache.get` / `put` a preemption point: it must be answered as an instance with
+    an empty cache answers it."""
+    from vgi_rpc.http.server import _state_token as ST
+
+    ds = c14sched.make_sched(ST)
+    runs = 0
+    with ds:
+        for sc in ([only["scenario"]] if only else RACES):
+            box: dict[str, Any] = {}
+            setup = _race_setup(pool, clock, sc, box)
+            it = [ds.replay(setup, only["schedule"])] if only else ds.explore(setup, dfs=dfs, bound=2, random=0, seed=ctx.seed)
+            for run in it:
+                runs += 1
+                case = {"sched": "app", "scenario": sc, "schedule": run.schedule}
+                ctx.case(case, nontrivial=run.preemptions > 0, tags=("src:app-race", f"race:{sc['other']}"))
+                if run.status != "ok" or run.errors or "warm" not in box:
+                    ctx.fail(case, f"C14:race-run-{run.status}", f"status {run.status}, errors {run.errors}, blocked {run.blocked}")
+                elif outcome(box["warm"]) != outcome(box["cold"]):
+                    ctx.fail(case, f"C14:race-outcome-differs:{_real_cat(box['warm'])}:{_real_cat(box['cold'])}",
+                             f"a continuation racing `{sc['other']}` on a worker with cache capacity {sc['cap']} was answered "
+                             f"{outcome(box['warm'])}; an instance with an empty cache answers {outcome(box['cold'])}; "
+                             f"schedule {run.schedule}")
+                if len(ctx.failures) >= 40:
+                    break
+            pool.apps.pop((sc["cap"], 10, 0, KEY), None)  # this instance's cache carries the scheduler's lock: do not reuse it
+    ctx.note("app_race_runs", ctx.notes.get("app_race_runs", 0) + runs)
+
+
 # ------------------------------------------------------------------------------------------ run / replay
 
 
@@ -1015,6 +1104,10 @@ def run(ctx: Any) -> None:
         if ctx.driver is not None:
             ctx.note("extracted_shape", ctx.driver.call("C14.shape", {}))
         _model_selfcheck(ctx)
+        # the cache's own critical sections: two threads of one worker on the real _CallStateCache, every line of get / put
+        # a preemption point (harness/common/c14sched.py)
+        c14sched.explore_cache(ctx, n_cfg=ctx.budget(10, 150), dfs=ctx.budget(50, 500), rnd=ctx.budget(10, 100))
+        race_through_app(ctx, pool, clock, dfs=ctx.budget(40, 400))
         for name, ttl, caps, steps in corpus():
             dep = execute(pool, clock, ttl, caps, steps, fresh_ref=True)
             evaluate(ctx, dep, decodes, tags=("src:corpus",))
@@ -1052,6 +1145,12 @@ def replay(ctx: Any, case: dict[str, Any]) -> None:
         decodes = measure_decodes()
         if "identity" in case:
             _model_selfcheck(ctx)
+            return
+        if case.get("sched") == "cache":
+            c14sched.replay_cache(ctx, case)
+            return
+        if case.get("sched") == "app":
+            race_through_app(ctx, pool, clock, dfs=1, only=case)
             return
         dep = execute(pool, clock, case["ttl"], list(case["caps"]), case["steps"], fresh_ref=True)
         evaluate(ctx, dep, decodes, tags=("src:replay",))
